@@ -12,6 +12,13 @@ package types
 //@ loop 1 forkey rev uint64, h uint64 :: ProcessedTimeKey(clienttypes.NewHeight(rev, h))
 //@ loop 1 continue [parse-back] ncalls("cb") == 1 && callarg("cb", 0) == ProcessedTimeKey(clienttypes.NewHeight(rev, h))
 
+// the exported metadata covers both families: processed times and the ordered iteration keys that pruning walks
+// ("all client metadata", C13). (The iteration key is built with binary.BigEndian.PutUint64 into a fresh slice, which
+// the key algebra does not follow: its parse-back is exercised by the replay of the repaired export defect, not proved.)
+// verif:func (ClientState).ExportMetadata
+//@ callsite IterateProcessedTime [processed-times-exported] dollar_store == store
+//@ callsite IterateConsensusStateAscending [iteration-keys-exported] clientStore == store
+
 // ---- a consensus state reports the client type of its own light client (C13: exported genesis validates) ----
 // verif:func (ConsensusState).ClientType
 //@ ensures [type-agree] result == (&ClientState{}).ClientType()
